@@ -441,8 +441,8 @@ static void c03_case(uint64_t idx)
     }
 }
 
-/* ---------------------------------------------------------------- C04 */
-static void c04_case(uint64_t idx)
+/* ---------------------------------------------------------------- C04 (one object) */
+static void c04_case_single(uint64_t idx)
 {
     unsigned bb = (idx & 1) ? 16 : 8;
     vh_rng r; uint8_t key[32], tweak[16], in[16], out[16], exp_[16];
@@ -535,6 +535,62 @@ static void c04_case(uint64_t idx)
     if (vh_distinct(hh) && nops > 2) VH_COUNT("distinct_nontrivial_histories", 1);
     if (vh_want_sample() && !chain) { vh_sb s; sb_init(&s); sb_printf(&s, "{\"cipher\":\"skinny%u\",\"tweaked_schedule_history\":%s}", bb * 8, log.p); vh_sample(s.p); sb_free(&s); }
     sb_free(&log);
+}
+
+/* several tweakable schedules of different key sizes live side by side in one thread and draw their tweaks from one small pool,
+   so that the same tweak value recurs on different objects in every order: each result must still depend only on that object's
+   key and latest tweak (anything the library remembers between calls - per thread or per process - shows up here) */
+static void c04_multi_case(uint64_t idx)
+{
+    enum { MAXM = 5 };
+    vh_rng r; unsigned bb = (idx & 1) ? 16 : 8, M, step, j; char k_[160];
+    struct { uint8_t key[32], tweak[16]; unsigned klen; int keyed; Skinny128TweakedKey_t t128; Skinny64TweakedKey_t t64; } ob[MAXM];
+    uint8_t pool[4][16], in[16], out[16], exp_[16];
+    vh_rng_seed(&r, vh_seed, 0x44, idx);
+    begin(idx, "C04");
+    M = 3 + vh_below(&r, 3);
+    memset(ob, 0, sizeof(ob));
+    vh_fill_interesting(&r, pool[0], 16); vh_related(&r, pool[1], pool[0], 16); vh_rand_bytes(&r, pool[2], 16); memset(pool[3], 0, 16); pool[3][bb - 1 - vh_below(&r, 4)] = (uint8_t)(1 + vh_below(&r, 255));
+    snprintf(k_, sizeof(k_), "C04:skinny%u:several-objects", bb * 8); vh_set_crash_key(k_);
+    for (step = 0; step < 160; ++step) {
+        unsigned op = vh_below(&r, 10); int ret = 1;
+        j = vh_below(&r, M);
+        if (!ob[j].keyed || op == 0) {
+            ob[j].klen = vh_below(&r, 3) ? bb * (1 + vh_below(&r, 2)) : bb + vh_below(&r, bb + 1);
+            vh_rand_bytes(&r, ob[j].key, 32); memset(ob[j].tweak, 0, 16); ob[j].keyed = 1;
+            vh_call_begin("set_tweaked_key"); ret = bb == 16 ? skinny128_set_tweaked_key(&ob[j].t128, ob[j].key, ob[j].klen) : skinny64_set_tweaked_key(&ob[j].t64, ob[j].key, ob[j].klen); vh_call_end();
+        } else if (op <= 4) {
+            unsigned pi = vh_below(&r, 4), tl = vh_below(&r, 4) ? bb : 1 + vh_below(&r, bb); int null = !vh_below(&r, 10);
+            memset(ob[j].tweak, 0, 16); if (!null) memcpy(ob[j].tweak, pool[pi], tl);
+            vh_call_begin("set_tweak"); ret = bb == 16 ? skinny128_set_tweak(&ob[j].t128, null ? NULL : pool[pi], tl) : skinny64_set_tweak(&ob[j].t64, null ? NULL : pool[pi], tl); vh_call_end();
+            VH_COUNT("tweak_changes", 1);
+        } else {
+            int dec = (int)vh_below(&r, 2);
+            vh_rand_bytes(&r, in, bb);
+            ref_skinny_tweaked_crypt(bb, ob[j].key, ob[j].klen, ob[j].tweak, bb, dec, in, exp_);
+            vh_call_begin(dec ? "ecb_decrypt" : "ecb_encrypt");
+            if (bb == 16) { if (dec) skinny128_ecb_decrypt(out, in, &ob[j].t128.ks); else skinny128_ecb_encrypt(out, in, &ob[j].t128.ks); }
+            else { if (dec) skinny64_ecb_decrypt(out, in, &ob[j].t64.ks); else skinny64_ecb_encrypt(out, in, &ob[j].t64.ks); }
+            vh_call_end();
+            VH_COUNT("blocks_compared", 1);
+            if (memcmp(out, exp_, bb)) {
+                char info[200]; snprintf(info, sizeof(info), "{\"objects\":%u,\"object\":%u,\"step\":%u,\"key_len\":%u,\"decrypt\":%d}", M, j, step, ob[j].klen, dec);
+                snprintf(k_, sizeof(k_), "C04:skinny%u:several-objects:%s:differs-from-model-with-latest-tweak", bb * 8, dec ? "decrypt" : "encrypt");
+                c03_report(idx, k_, "block under (key, latest tweak) of this object", out, exp_, bb, info);
+                return;
+            }
+        }
+        if (ret != 1) { snprintf(k_, sizeof(k_), "C04:skinny%u:several-objects:valid-call-rejected", bb * 8); c03_report(idx, k_, "ret", in, in, 0, NULL); return; }
+    }
+    VH_COUNT("histories", 1); VH_COUNT("multi_object_histories", 1);
+    if (vh_distinct(vh_hash(pool, sizeof(pool), idx))) VH_COUNT("distinct_nontrivial_histories", 1);
+}
+
+/* ---------------------------------------------------------------- C04 */
+static void c04_case(uint64_t idx)
+{
+    if (idx % 5 == 4) { c04_multi_case(idx / 5); return; }
+    c04_case_single(idx - idx / 5);
 }
 
 int main(int argc, char **argv)
